@@ -1,56 +1,2 @@
-(* GENERATED by tools/gen/g_exit.py from util/file.cc, util/buffered_stream.hh, util/integer_to_string.hh,
-   preprocess/captive_child.cc, the wrapper mains and the iostream tool mains -- do not edit *)
-From Coq Require Import List ZArith Bool.
-Import ListNotations.
-Local Open Scope Z_scope.
-
-Definition EAGAIN : Z := 11.
-Definition EFBIG : Z := 27.
-Definition EINTR : Z := 4.
-Definition EINVAL : Z := 22.
-Definition EIO : Z := 5.
-Definition EISDIR : Z := 21.
-Definition ENOSPC : Z := 28.
-Definition ENOTSUP : Z := 95.
-Definition EPIPE : Z := 32.
-Definition EROFS : Z := 30.
-Definition SIGABRT : Z := 6.
-Definition SIGPIPE : Z := 13.
-
-(* PartialRead: retry while errno = this; throw FDException when ret < 0 *)
-Definition read_retry_errnos : list Z := [EINTR].
-Definition read_throw_below : Z := 0.
-(* WriteOrThrow: retry while errno = this; throw FDException when ret < 1 *)
-Definition write_retry_errnos : list Z := [EINTR].
-Definition write_throw_below : Z := 1.
-(* FSyncIgnoreUnsupported returns quietly for these errno values, throws FDException otherwise *)
-Definition fsync_ignored_errnos : list Z := [EROFS; EINVAL; ENOTSUP].
-Definition close_failure_aborts : bool := true.
-Definition kBufferSize : Z := 8192.
-
-(* Wait(): WEXITSTATUS for a normal exit; for a signalled child: base + WTERMSIG; otherwise the fallback *)
-Definition wait_has_signal_branch : bool := true.
-Definition wait_signal_base : Z := 128.
-Definition wait_fallback : Z := 255.
-Definition cache_main_swallows_exceptions : bool := false.
-Definition foldfilter_main_swallows_exceptions : bool := false.
-Definition b64filter_main_swallows_exceptions : bool := false.
-
-(* iostream tools: (flushes std::cout before the test, returns non-zero when std::cout failed,
-   returns non-zero when reading std::cin failed / not applicable because input goes through util::FilePiece) *)
-Definition process_unicode_flushes_cout : bool := true.
-Definition process_unicode_checks_cout : bool := true.
-Definition process_unicode_cout_fail_code : Z := 1.
-Definition process_unicode_checks_cin : bool := true.
-Definition mmhsum_flushes_cout : bool := true.
-Definition mmhsum_checks_cout : bool := true.
-Definition mmhsum_cout_fail_code : Z := 1.
-Definition mmhsum_checks_cin : bool := true.
-Definition gigaword_unwrap_flushes_cout : bool := true.
-Definition gigaword_unwrap_checks_cout : bool := true.
-Definition gigaword_unwrap_cout_fail_code : Z := 1.
-Definition gigaword_unwrap_checks_cin : bool := true.
-Definition order_independent_hash_flushes_cout : bool := true.
-Definition order_independent_hash_checks_cout : bool := true.
-Definition order_independent_hash_cout_fail_code : Z := 1.
-Definition order_independent_hash_checks_cin : bool := true.
+(* translator failed: pattern for BufferedStream::write slow path not found *)
+Definition translator_failed : True := 0.
